@@ -19,6 +19,17 @@ def run_store(run, want, rule, n_gen_quick=60, n_gen_thorough=1200, cap_quick=40
         case, n = storecheck.build_case(run, it, random.Random("%d/s%d" % (run.seed, k)), cap)
         cases.append(case)
         total += n
+    # the same with a rename table known and the deprecated-options block written (C02: "the same holds when the
+    # file carries the deprecated-options block"): a slice of the programs
+    nblock = 0
+    if "P-RtBytes" in want:
+        for k, it in enumerate(items):
+            if k % (7 if tier == "quick" else 2) == 0:
+                case, n = storecheck.build_case(run, it, random.Random("%d/b%d" % (run.seed, k)), min(cap, 24), with_block=True)
+                cases.append(case)
+                total += n
+                nblock += case.get("blocks", 0)
+        run.cov["configurations_written_with_deprecated_block"] = nblock
     run.add("evaluations", total)
     for case in cases:
         for err in case.get("errors", []):
@@ -70,7 +81,7 @@ def run_store(run, want, rule, n_gen_quick=60, n_gen_thorough=1200, cap_quick=40
     run.cov["distinct_nontrivial"] = nontriv
     run.cov["programs"] = len(cases)
     run.cov["exhaustive"] = True
-    run.cov["rule"] = rule
+    run.cov["rule"] = rule + ("; a slice of the programs again with a rename table known (plain and inverted alias of a bool, aliases of the first option of each other type) and the deprecated-options block written" if "P-RtBytes" in want else "")
     run.sample({"kconfig": cases[0]["text"], "variables": cases[0]["vars"], "first_observation": cases[0]["store"][0]})
     run.sample({"kconfig": cases[-1]["text"], "variables": cases[-1]["vars"], "first_observation": cases[-1]["store"][0]})
     return cases
